@@ -146,7 +146,9 @@ fn outcome(r: &JobResult) -> Outcome {
 fn differs(reference: &Outcome, other: &Outcome) -> Option<(String, String, String)> {
     match (reference, other) {
         (Outcome::NoInformation, _) | (_, Outcome::NoInformation) => None,
-        (Outcome::Fp(a), Outcome::Fp(b)) => a.first_diff(b),
+        // an invariant broken inside one run (a repeated call on the same objects, thread state
+        // left changed) makes that run differ from what the reference environment must show
+        (Outcome::Fp(a), Outcome::Fp(b)) => b.broken_invariant().or_else(|| a.broken_invariant()).or_else(|| a.first_diff(b)),
         (_, Outcome::SiblingsDisagree(a, b)) => a.first_diff(b).map(|(f, x, y)| (format!("{f} (two sibling tasks of one run)"), x, y)),
         (Outcome::Panic(a), Outcome::Panic(b)) if a == b => None,
         (Outcome::Panic(a), Outcome::Panic(b)) => Some(("<panic message>".into(), a.clone(), b.clone())),
